@@ -85,6 +85,7 @@ func newLexer(env *ExecEnv, r io.RuneScanner) *lexer {
 }
 
 func (l *lexer) Lex(lval *yySymType) int {
+	verifPoint(1)
 	select {
 	case <-l.cancel:
 		// an error has been reported; the rest of the input is not evaluated
@@ -106,6 +107,7 @@ func (l *lexer) Lex(lval *yySymType) int {
 
 func (l *lexer) run() {
 	defer func() {
+		verifPoint(8)
 		close(l.token)
 		close(l.done)
 
@@ -364,6 +366,7 @@ func (l *lexer) emit(typ int) {
 }
 
 func (l *lexer) send(tok interface{}) {
+	verifPoint(3)
 	select {
 	case l.token <- tok:
 	case <-l.cancel:
@@ -382,6 +385,7 @@ func (l *lexer) unread() {
 
 // wait stops the lexer goroutine and waits for it to exit.
 func (l *lexer) wait() {
+	verifPoint(9)
 	l.mu.Lock()
 	select {
 	case <-l.cancel:
@@ -393,6 +397,7 @@ func (l *lexer) wait() {
 }
 
 func (l *lexer) Error(s string) {
+	verifPoint(7)
 	l.mu.Lock()
 	defer l.mu.Unlock()
 
